@@ -17,7 +17,17 @@ def run(c):
     model = S.driver(c)
     if rep is None or model is None:
         return
+    if c.replay and isinstance(c.replay.get("witness"), dict) and "list" in c.replay["witness"]:
+        w = c.replay["witness"]
+        from vlib import run_lines
+        req = f"s {w['list']} {w['index']} {w['input_hex']} {1 if w.get('debug_assertions') else 0}"
+        ans = run_lines([model], [req], timeout=60)[0]
+        print(f"replay: {req} -> {ans}")
+        if not ans.startswith("1\t"):
+            c.spec_violation(c.replay.get("class", "replay"), c.replay.get("what", "replayed witness still fails"),
+                             dict(w, replayed_answer=ans))
     fails = S.sweep_scalars(c, rep, model)
+    S.native_search_untranslatable(c, rep, model)
     S.native_langs(c, rep, model, S.native_support(rep), scalars=True, casts=False)
     for s in [x for x in rep["sites"] if "wty" in x and "probe" not in x][:6]:
         c.sample({"site": s["key"], "snippet": T.one_line(s["snippet"]), "expr": s["lean"], "declared operand type": s["opTy_text"],
